@@ -457,6 +457,65 @@ let classify_set (args : sx) (real : string) (_ : string) : string =
     | _ -> "unclassified"
 let () = Hashtbl.replace table "set" op_set; Hashtbl.replace classifiers "set" classify_set
 
+(* setw bits ops : the same machine over binary elements (wide sets, elements up to 2^64-1);
+   set2 (bits0 bits1) ops : two sets of different widths in one environment, no operation joins them: each is the
+   single-width machine on its own operations (the model has no environment to share) *)
+let sopn_of (x : sx) : sopN =
+  let b a = (atom a = "1") in
+  match x with
+  | L [A "ins"; i; e] -> SNInsert (b i, n_of_dec (atom e))
+  | L [A "uni"; i; j] -> SNUnion (b i, b j)
+  | L [A "int"; i; j] -> SNIntersect (b i, b j)
+  | L [A "cmp"; i; j] -> SNComplement (b i, b j)
+  | L [A "emp"; i] -> SNEmpty (b i)
+  | L [A "univ"; i] -> SNUniverse (b i)
+  | L [A "has"; i; e] -> SNContains (b i, n_of_dec (atom e))
+  | _ -> raise (Bad "sopN")
+let op_setw (args : sx) : string =
+  match args with
+  | L [bits; L ops] ->
+      let (ans, (b0, b1)) = set_runN (nat_atom bits) (List.map sopn_of ops) in
+      "(ok " ^ show_answers ans ^ " " ^ bdd_str b0 ^ " " ^ bdd_str b1 ^ ")"
+  | _ -> raise (Bad "setw")
+let classify_setw (args : sx) (real : string) (_ : string) : string =
+  if real = "(panic)" then "panic"
+  else match args, (try Some (parse_sx real) with Bad _ -> None) with
+    | L [_; L ops], Some (L [A "ok"; L ans; _; _]) ->
+        let reference = show_answers (set_refN (List.map sopn_of ops)) in
+        let got = "(" ^ String.concat " " (List.map atom ans) ^ ")" in
+        if got = reference then "holds" else "member"
+    | _ -> "unclassified"
+let which_set (x : sx) : int = match x with L (_ :: i :: _) -> int_atom i | _ -> raise (Bad "set2 op")
+let set2_split (ops : sx list) : (sx list * sx list) =
+  (* operations of set 1 are renumbered to set 0 of their own machine *)
+  let re0 = function L (h :: _ :: r) -> L (h :: A "0" :: r) | x -> x in
+  (List.filter (fun o -> which_set o = 0) ops, List.map re0 (List.filter (fun o -> which_set o = 1) ops))
+let set2_merge (ops : sx list) (a0 : 'a list) (a1 : 'a list) : 'a list =
+  let rec go ops a0 a1 = match ops with
+    | [] -> []
+    | o :: r -> if which_set o = 0 then (match a0 with x :: t -> x :: go r t a1 | [] -> raise (Bad "set2")) else (match a1 with x :: t -> x :: go r a0 t | [] -> raise (Bad "set2")) in
+  go ops a0 a1
+let op_set2 (args : sx) : string =
+  match args with
+  | L [L [b0; b1]; L ops] ->
+      let (o0, o1) = set2_split ops in
+      let (ans0, (d0, _)) = set_runN (nat_atom b0) (List.map sopn_of o0) in
+      let (ans1, (d1, _)) = set_runN (nat_atom b1) (List.map sopn_of o1) in
+      "(ok " ^ show_answers (set2_merge ops ans0 ans1) ^ " " ^ bdd_str d0 ^ " " ^ bdd_str d1 ^ ")"
+  | _ -> raise (Bad "set2")
+let classify_set2 (args : sx) (real : string) (_ : string) : string =
+  if real = "(panic)" then "panic"
+  else match args, (try Some (parse_sx real) with Bad _ -> None) with
+    | L [_; L ops], Some (L [A "ok"; L ans; _; _]) ->
+        let (o0, o1) = set2_split ops in
+        let reference = show_answers (set2_merge ops (set_refN (List.map sopn_of o0)) (set_refN (List.map sopn_of o1))) in
+        let got = "(" ^ String.concat " " (List.map atom ans) ^ ")" in
+        if got = reference then "holds" else "member"
+    | _ -> "unclassified"
+let () =
+  Hashtbl.replace table "setw" op_setw; Hashtbl.replace classifiers "setw" classify_setw;
+  Hashtbl.replace table "set2" op_set2; Hashtbl.replace classifiers "set2" classify_set2
+
 (* ---------- S-hist ---------- *)
 let rec sx_of_bdd = function
   | F -> A "F" | T -> A "T"
@@ -626,8 +685,10 @@ let op_queens (args : sx) : string =
 (* large boards: only the shape (glue arithmetic): number of constraints, largest index *)
 let op_queensbig (args : sx) : string =
   match args with
-  | L [n] -> let n = int_atom n in Printf.sprintf "(ok %d %d)" (6 * n - 2 + 1) (n * n - 1)
+  | L [n] -> let n = int_atom n in Printf.sprintf "(ok %d %d %d 0)" (6 * n - 2 + 1) (n * n - 1) (n * n)
   | _ -> raise (Bad "queensbig")
+(* the head of the stream for boards too large to produce: well-formed lists over cells below n*n *)
+let op_queenshuge (_ : sx) : string = "(ok-prefix)"
 
 (* sudoku r (text) ; white space beyond ASCII is tagged c:s by the harness *)
 let op_sudoku (args : sx) : string =
@@ -699,7 +760,12 @@ let classify_gen (_ : sx) (real : string) (_ : string) : string =
 let () =
   List.iter (fun (n, f) -> Hashtbl.replace table n f; Hashtbl.replace classifiers n classify_gen)
     [("queens", op_queens); ("queensbig", op_queensbig); ("sudoku", op_sudoku); ("clique", op_clique);
-     ("graphcheck", op_graphcheck); ("convert", op_convert); ("colors", op_colors)]
+     ("graphcheck", op_graphcheck); ("convert", op_convert); ("colors", op_colors)];
+  (* large boards are judged by structure only: number of constraints, cell names exactly v_0 .. v_(n*n-1); any deviation
+     means the text is not the n-queens formula over the n*n cells *)
+  let classify_big (_ : sx) (real : string) (_ : string) : string = if real = "(panic)" then "panic" else "illformed" in
+  Hashtbl.replace classifiers "queensbig" classify_big;
+  Hashtbl.replace table "queenshuge" op_queenshuge; Hashtbl.replace classifiers "queenshuge" classify_big
 
 (* end-to-end on small instances: the models of the model's formula (brute force over fsem), as sorted
    lists of the variables that are true, over the free variables the formula mentions *)
